@@ -8,7 +8,7 @@ fn main() {
     let us: Vec<Progs> = if quick {
         vec![Progs::new(&[2, 3, 4, 6, 7], 3, 2, 2, 2), Progs::new(&[2, 3, 4], 3, 3, 1, 1), Progs::new(&[0, 1, 5, 8], 2, 2, 2, 2)]
     } else {
-        vec![Progs::new(&[0, 1, 2, 3, 4, 5, 6, 7, 8], 3, 2, 2, 2), Progs::new(&[2, 3, 4, 6, 7], 3, 3, 2, 1), Progs::new(&[2, 3, 4], 4, 3, 1, 1), Progs::new(&[2, 3, 6], 4, 4, 1, 1)]
+        vec![Progs::new(&[0, 1, 2, 3, 4, 5, 6, 7, 8], 3, 2, 2, 2), Progs::new(&[2, 3, 4, 6, 7], 3, 3, 2, 1), Progs::new(&[2, 3, 4], 4, 3, 1, 1), Progs::new(&[2, 3, 6], 3, 4, 1, 1)]
     };
     for u in &us {
         ctx.run_slice(Slice::new(format!("eval[{}]", u.name()), u.count(), move |i, loc| check::<B>(&u.get(i), loc)));
